@@ -26,6 +26,8 @@ use tokio_util::codec::Encoder;
 use map_queue::MapOperationQueue;
 mod key;
 mod map_queue;
+#[cfg(feature = "verif_hooks")]
+pub use map_queue::MapOperationQueue as VerifMapOperationQueue;
 pub mod recon;
 
 use recon::MapOperationReconEncoder;
